@@ -35,7 +35,7 @@ import (
 )
 
 func init() {
-	evid.Register(&evid.Check{ID: "C20", Level: "exploration", Run: run, QuickBudget: 240 * time.Second, ThoroughBudget: 14 * time.Minute})
+	evid.Register(&evid.Check{ID: "C20", Level: "exploration", Run: run, QuickBudget: 300 * time.Second, ThoroughBudget: 14 * time.Minute})
 }
 
 func cpuSeconds() float64 {
